@@ -23,7 +23,8 @@ replaces it (`TaskQueue.add` in RT; NRT after repair D12).
 Routine bodies: `yield d`, yield a non-number (`hang`), `log`, `send`, `spawn r clock`
 (create if needed — inheriting the creator's random generator — and `play(clock, quant=0)`),
 `setTempo i x`, `pause/resume/stop r` (no-ops on a routine not yet created), `wait/signal c`,
-`seed n`, `draw`, `pull r` (`r.next()` on a sub-stream routine from inside the body).
+`seed n` (a new generator object), `draw`, `pull r` (`r.next()` on a sub-stream routine from inside
+the body), `raise` (the body fails: logged by the clock, the routine is Done).
 Core Lean only (loaded by the drivers of C05 and C10).
 -/
 namespace Sc3Verif.C05
@@ -67,6 +68,7 @@ inductive Act where
   | seed (n : Nat)
   | draw
   | pull (r : Nat)
+  | raise
 deriving Repr, DecidableEq, Inhabited
 
 /-- Trace events.  `secs` are logical seconds; `beats` are on the clock that woke the routine. -/
@@ -108,7 +110,9 @@ structure S where
   nextSeq : Nat := 0
   mainSecs : Rat := 0            -- logical time of the task being / last executed
   conds : Nat → Cond := fun _ => {}
-  draws : Nat → Nat := fun _ => 0      -- per generator: number of values drawn so far
+  draws : Nat → Nat := fun _ => 0      -- per generator object: number of values drawn so far
+  genSeed : Nat → Option Nat := fun _ => none   -- seed of a generator object (`none`: the main thread's)
+  nextGen : Nat := 1             -- generator object 0 is the main thread's
   trace : List Ev := []          -- newest first
 
 instance : Inhabited S := ⟨{}⟩
@@ -181,6 +185,12 @@ def sumY : List Act → Rat
   | .yield d :: rest => d + sumY rest
   | _ :: rest => sumY rest
 
+/-- `random.Random(n)`: a NEW generator object with seed `n` (two objects with equal seeds produce
+    equal streams but are read independently). -/
+def S.newGen (s : S) (n : Nat) : S :=
+  { s with genSeed := fun g => if g = s.nextGen then some n else s.genSeed g
+           nextGen := s.nextGen + 1 }
+
 structure Ctx where
   rid : Nat
   clk : Clk
@@ -201,7 +211,7 @@ def runSub (s : S) (r : Nat) : List Act → S
     let s := s.bumpPc r
     match a with
     | .yield _ => s
-    | .seed n => runSub (s.setRt r { s.rts r with gen := n }) r rest
+    | .seed n => runSub ((s.newGen n).setRt r { s.rts r with gen := s.nextGen }) r rest
     | .draw =>
       let g := (s.rts r).gen
       runSub ({ s.emit (.draw r g (s.draws g)) with
@@ -261,7 +271,8 @@ def runActs (s : S) (x : Ctx) : List Act → S
       runActs ({ s with conds := fun j => if j = c then { test := true, waiting := [] }
                                           else s.conds j }.schedAll w) x rest
     | .seed n =>
-      runActs (s.setRt x.rid { s.rts x.rid with gen := n }) x rest
+      runActs ((s.newGen n).setRt x.rid { s.rts x.rid with gen := s.nextGen }) x rest
+    | .raise => s.setRt x.rid { s.rts x.rid with state := .done }
     | .draw =>
       let g := (s.rts x.rid).gen
       runActs ({ s.emit (.draw x.rid g (s.draws g)) with
